@@ -71,6 +71,54 @@ class InfoLedger(object):
         return self.led.require_min(*a, **k)
 
 
+class RelabelLedger(object):
+    """Forwards the obligations of a rule set that another property owns, renamed under this
+    property's prefix, so that a property whose argument rests on them reports their failure itself.
+    `keep` restricts the forwarded rules (prefix match); others are dropped."""
+
+    def __init__(self, led, prefix, keep=None, strip=None):
+        self.led = led
+        self.prefix = prefix
+        self.keep = keep
+        self.strip = strip
+
+    def _name(self, rule):
+        if self.keep is not None and not any(rule == k or rule.startswith(k + ".") for k in self.keep):
+            return None
+        r = rule
+        if self.strip and r.startswith(self.strip):
+            r = r[len(self.strip) :].lstrip(".")
+        else:
+            r = r.split(".", 1)[1] if "." in r else r
+        return self.prefix + ("." + r if r else "")
+
+    def ok(self, rule, *a, **k):
+        n = self._name(rule)
+        return self.led.ok(n, *a, **k) if n else True
+
+    def info(self, rule, *a, **k):
+        n = self._name(rule)
+        return self.led.info(n, *a, **k) if n else True
+
+    def undecided(self, rule, *a, **k):
+        n = self._name(rule)
+        return self.led.undecided(n, *a, **k) if n else True
+
+    def violation(self, rule, *a, **k):
+        n = self._name(rule)
+        return self.led.violation(n, *a, **k) if n else True
+
+    def check(self, cond, rule, *a, **k):
+        n = self._name(rule)
+        return self.led.check(cond, n, *a, **k) if n else cond
+
+    def count(self, *a, **k):
+        return True
+
+    def require_min(self, *a, **k):
+        return True
+
+
 def is_self_attr(node, attr=None):
     return (
         isinstance(node, ast.Attribute)
